@@ -40,6 +40,10 @@ type Backend interface {
 	// Returns ErrExist if path already exists.
 	Put(path string, data []byte) error
 
+	// Remove data at given path.
+	// Returns ErrNotExist if path does not exist.
+	Remove(path string) error
+
 	// ListAll enumerates all paths currently stored.
 	// The paths are returned in lexicographical order.
 	ListAll() ([]string, error)
